@@ -46,6 +46,8 @@ class ScalarMultiplication final : public Operator {
   S _s;
   /*! The operator to be multiplied. */
   O _o;
+  /*! If true, the operator is divided by the scalar instead. */
+  bool _divide = false;
 
  public:
   /*!
@@ -56,8 +58,10 @@ class ScalarMultiplication final : public Operator {
    *
    * @param s The scalar to be multiplied.
    * @param o The operator to be multiplied.
+   * @param divide If true, the operator is divided by s instead of multiplied.
    */
-  ScalarMultiplication(S s, O o) : _s(std::move(s)), _o(std::move(o)){};
+  ScalarMultiplication(S s, O o, bool divide = false)
+      : _s(std::move(s)), _o(std::move(o)), _divide(divide){};
 
   /*!
    * @brief Multiplication of scalar and a default constructed Operator.
@@ -100,7 +104,11 @@ class ScalarMultiplication final : public Operator {
 
     // Multiply a.
     for (T &el : a) {
-      el *= static_cast<T>(_s);
+      if (_divide) {
+        el /= static_cast<T>(_s);
+      } else {
+        el *= static_cast<T>(_s);
+      }
     }
     return a;
   }
@@ -163,7 +171,7 @@ template <
     typename S, typename O,
     std::enable_if_t<are_scalar_multiplication_types_v<S, O>, bool> = true>
 ScalarMultiplication<S, O> operator/(O &&o, const S &s) {
-  return ScalarMultiplication(static_cast<S>(1) / s, std::forward<O>(o));
+  return ScalarMultiplication<S, O>(s, std::forward<O>(o), true);
 }
 
 /*!
